@@ -6,6 +6,7 @@ import Tbx.Proofs.FlowDinicBfsSound
 import Tbx.Proofs.FlowDinicTotal
 import Tbx.Proofs.FlowDinicRerun
 import Tbx.Proofs.FlowEKRerun
+import Tbx.Proofs.FlowDinicResume
 import Tbx.Proofs.FlowEKTotal
 import Tbx.Model.Flow
 import Tbx.Model.FlowDinic
@@ -345,6 +346,38 @@ theorem ek_ff_rerun_same_value (es : List Edge) (s t : Nat) (hnn : ∀ e, e ∈ 
 
 example : (((Solver.fromEdgeList d1Edges 0 4).runEK 100).bind (Solver.runN popBack 1 3)).map (·.maxFlow)
     = some 10 := by decide +kernel
+
+/-- **dinic_history_maxflow** (every history of runs on one object, aborts included): let a Dinic model object be
+    built from any admissible edge list and then driven through ANY sequence of `run()` /
+    `run_with_upper_bound(b)` calls - `bs` lists the value the consulted bound has at each call, so a call may be
+    aborted, resumed later under a larger bound, repeated after completion, in any order
+    (`InertialFlow.runBoundedAgain` is the repaired loop that continues from the stored counter; the first call
+    on the fresh object is `runBounded`).  Whenever `max_flow()` then answers `Ok x`, `x` is the maximum s-t flow
+    value.  (That the call sequence returns is `dinic_terminates` for the first run; for later runs the fuel is a
+    parameter here.)  A counter that loses the phase pushed before an abort (seeded change C02-r4m2) or restarts
+    at 0 (D24) falsifies the invariant `Carried` this rests on. -/
+theorem dinic_history_maxflow (es : List Edge) (s t : Nat) (hnn : ∀ e, e ∈ es → 0 ≤ e.cap) (hst : s ≠ t)
+    (hs : s < nNodes (es.map toE)) (ht : t < nNodes (es.map toE)) (hN : nNodes (es.map toE) + 2 < INV)
+    (d : Dinic) (hd : Dinic.fromEdgeList es s t = some d) (fuel : Nat) (bs : List Int) (d' : Dinic)
+    (h : InertialFlow.runsBounded fuel bs d = some d') (x : Int) (hx : d'.maxFlow? = .ok x) :
+    IsMaxFlowValue (cF (es.map toE) (nNodes (es.map toE))) ⟨s, hs⟩ ⟨t, ht⟩ x := by
+  obtain ⟨hc, hf⟩ := InertialFlow.fresh_carried es s t hnn hs ht d hd
+  obtain ⟨_, hdone⟩ := InertialFlow.runsBounded_spec (fun e => hst (Fin.mk.inj e)) hN fuel bs d d' hc
+    (fun hft => by rw [hf] at hft; cases hft) h
+  unfold Dinic.maxFlow? maxFlowOut at hx
+  cases hfin : d'.finished with
+  | false => rw [hfin] at hx; cases hx
+  | true =>
+    rw [hfin] at hx
+    simp only [Bool.not_true, Bool.false_eq_true, if_false, Out.ok.injEq] at hx
+    rw [← hx]
+    exact (hdone hfin).1
+
+/-- non-vacuity: D1's witness aborted at bound 2, run again under the same bound, then completed under i32::MAX -/
+example : ((Dinic.fromEdgeList d1Edges 0 4).bind (InertialFlow.runsBounded 100 [2, 2, I32MAX])).map
+    (fun d => (d.finished, d.maxFlow)) = some (true, 10) := by decide +kernel
+example : ((Dinic.fromEdgeList d1Edges 0 4).bind (InertialFlow.runsBounded 100 [2])).map
+    (fun d => d.finished) = some false := by decide +kernel
 
 /-- **solvers_agree on the models**: the three models return the same value whenever they return -/
 theorem models_agree (es : List Edge) (s t : Nat) (hnn : ∀ e, e ∈ es → 0 ≤ e.cap) (hst : s ≠ t)
